@@ -1,6 +1,10 @@
 package canvas
 
-import "math"
+import (
+	"io"
+	"math"
+	"strconv"
+)
 
 // C07: Matrix algebra (H1), Path.Transform on arc-free paths (H2), arc flags/end point (H3).
 // Domain: exact real arithmetic (_Q).  Products of two symbolic factors are avoided in the quick
@@ -578,4 +582,136 @@ func VH_C07_transform_arc_symmat_Q() {
 	large, sweep := vhC07ArcFlags(pre, q.d, det < 0)
 	vAssert("C07.arc.large_unchanged", large)
 	vAssert("C07.arc.sweep_flips_iff_det_negative", sweep)
+}
+
+// C07/C12 ("matrix to SVG transform", util.go ToSVG): Matrix.ToSVG(h) writes either
+// matrix(a,b,c,d,e,f) or a list translate/rotate/scale/rotate; composed by the SVG rules
+// (SVG 2 8.5: transforms apply right to left to a point; rotate(a) turns by a degrees in the y-down
+// system) the list must be the flipped matrix F.m.S with F: y -> h-y (canvas to SVG space) and
+// S: y -> -y (local space), i.e. matrix(a,-b,-c,d,e,h-f) for m = [a c e; b d f].  Linear part
+// from a table (rotations, anisotropic and mirrored scales, shear), translation and h symbolic.
+// Under the engine Fprintf/Sprintf are recorders; natively the text is parsed.
+type vhC07Op struct {
+	name string
+	args []float64
+}
+
+var vhC07Ops []vhC07Op
+var vhC07MatrixOp *vhC07Op
+
+func vhC07SvgArgs(a []interface{}) []float64 {
+	out := make([]float64, 0, len(a))
+	for _, v := range a {
+		switch x := v.(type) {
+		case dec:
+			out = append(out, float64(x))
+		case float64:
+			out = append(out, x)
+		}
+	}
+	return out
+}
+
+func vhC07Fprintf(w io.Writer, format string, a ...interface{}) (int, error) {
+	name := ""
+	for i := 1; i < len(format) && format[i] != '('; i++ {
+		name += string(format[i])
+	}
+	vhC07Ops = append(vhC07Ops, vhC07Op{name, vhC07SvgArgs(a)})
+	w.Write([]byte(" T"))
+	return 2, nil
+}
+
+func vhC07Sprintf(format string, a ...interface{}) string {
+	vhC07MatrixOp = &vhC07Op{"matrix", vhC07SvgArgs(a)}
+	return "M"
+}
+
+func vhC07ParseOps(s string) (ops []vhC07Op, ok bool) {
+	ok = true
+	i := 0
+	for i < len(s) {
+		if s[i] == ' ' {
+			i++
+			continue
+		}
+		j := i
+		for j < len(s) && s[j] != '(' {
+			j++
+		}
+		k := j
+		for k < len(s) && s[k] != ')' {
+			k++
+		}
+		if j >= len(s) || k >= len(s) {
+			return ops, false
+		}
+		op := vhC07Op{name: s[i:j]}
+		start := j + 1
+		for q := j + 1; q <= k; q++ {
+			if q == k || s[q] == ',' || s[q] == ' ' {
+				if q > start {
+					f, err := strconv.ParseFloat(s[start:q], 64)
+					ok = ok && err == nil
+					op.args = append(op.args, f)
+				}
+				start = q + 1
+			}
+		}
+		ops = append(ops, op)
+		i = k + 1
+	}
+	return
+}
+
+func VH_C07_tosvg_Q() {
+	vStub("!fmt.Fprintf", vhC07Fprintf)
+	vStub("!fmt.Sprintf", vhC07Sprintf)
+	lin := []Matrix{Identity, Identity.Rotate(30), Identity.Scale(2, 0.5), Identity.Rotate(90).Scale(1, 3), Identity.Scale(-1, 1), Identity.Shear(0.5, 0), Identity.Rotate(-45).Scale(2, 2), Identity.Rotate(20).Scale(1.5, 0.75).Rotate(50)}
+	m := lin[vChoose(0, len(lin)-1)]
+	tx, ty, h := vhReal(), vhReal(), vhReal()
+	m[0][2], m[1][2] = tx, ty
+	// general position for the Equal() tests on the translation
+	vAssume((tx == 0 || tx >= 1e-6 || tx <= -1e-6) && (ty == 0 || ty >= 1e-6 || ty <= -1e-6))
+	vhC07Ops, vhC07MatrixOp = nil, nil
+	s := m.ToSVG(h)
+	var ops []vhC07Op
+	ok := true
+	if vInterp() {
+		if s == "M" && vhC07MatrixOp != nil {
+			ops = []vhC07Op{*vhC07MatrixOp}
+		} else if s != "" {
+			ops = vhC07Ops
+		}
+	} else {
+		ops, ok = vhC07ParseOps(s)
+	}
+	// compose left to right: X = T1 . T2 . ... . x
+	acc := Identity
+	for _, op := range ops {
+		var t Matrix
+		switch {
+		case op.name == "matrix" && len(op.args) == 6:
+			t = Matrix{{op.args[0], op.args[2], op.args[4]}, {op.args[1], op.args[3], op.args[5]}}
+		case op.name == "translate" && len(op.args) == 2:
+			t = Identity.Translate(op.args[0], op.args[1])
+		case op.name == "rotate" && len(op.args) == 1:
+			t = Identity.Rotate(op.args[0])
+		case op.name == "scale" && len(op.args) == 2:
+			t = Identity.Scale(op.args[0], op.args[1])
+		default:
+			ok = false
+		}
+		acc = acc.Mul(t)
+	}
+	vAssert("C07.tosvg.wellformed", ok)
+	want := Matrix{{m[0][0], -m[0][1], m[0][2]}, {-m[1][0], m[1][1], h - m[1][2]}}
+	near := func(a, b float64) bool { return a-b <= 1e-6 && b-a <= 1e-6 }
+	good := true
+	for i := 0; i < 2; i++ {
+		for j := 0; j < 3; j++ {
+			good = good && near(acc[i][j], want[i][j])
+		}
+	}
+	vAssert("C07.tosvg.same_transformation", good)
 }
